@@ -432,6 +432,44 @@ def tie_accelerations(c, rebound, exe):
             push(["whjac"] + toks, lambda out, want=want, s0=s0, s1=s1, inf=inf: cm["whjac"].add(vals(out), want, [s0, s1], inf))
             push(["adwhjac"] + toks, lambda out, want=want, s1=s1, inf=inf: ad["whjac"].add(vals(out), want[3:], [s1], inf))
             c.count(("whjac", n, i), nontrivial=True)
+    # ---------------------------------------------------------------- kernels TRANSLATED from gravity.c, softening != 0
+    for k in ("var1-translated-softened", "var2-translated-softened"):
+        cm[k] = Cmp(k, 1e-13)
+    ad["var1-softened"] = Cmp("AD:var1-softened", 1e-12)
+    ad["var2-softened"] = Cmp("AD:var2-softened", 1e-12)
+    for case in range(max(6, ncases // 6)):
+        rng = c.rng.fork()
+        n = rng.choice([2, 3, 4, 6])
+        G, L, m0, ps = gen_gravity_case(rng, n)
+        da = gen_var(rng, n, L, m0)
+        db = gen_var(rng, n, L, m0, massvar=rng.chance(0.7))
+        dd = gen_var(rng, n, L, m0, massvar=rng.chance(0.5))
+        sim = rebound.Simulation()
+        sim.G = G
+        sim.softening = L * rng.uniform(0.05, 1.0) if case else 0.0
+        for p in ps:
+            sim.add(m=p[0], x=p[1], y=p[2], z=p[3])
+        va = sim.add_variation(); vb = sim.add_variation()
+        vab = sim.add_variation(order=2, first_order=va, first_order_2=vb)
+        for v, dat in ((va, da), (vb, db), (vab, dd)):
+            q = v.particles
+            for i in range(n):
+                q[i].m, q[i].x, q[i].y, q[i].z = dat[i]
+        clib.reb_simulation_update_acceleration(ctypes.byref(sim))
+        acc = lambda q, k: [v for i in range(k) for v in (q[i].ax, q[i].ay, q[i].az)]
+        s2h = d2h(sim.softening * sim.softening)
+        inf = dict(case=case, N=n, G=G, softening=sim.softening, particles=ps, var_a=da, var_b=db, var_2nd=dd)
+        want = acc(va.particles, n)
+        sc = [scale1(G, ps, da, i) + 1e-300 for i in range(n)]
+        toks = [str(n), d2h(G), s2h] + gp_tokens(ps) + gp_tokens(da)
+        push(["var1g"] + toks, lambda out, want=want, sc=sc, inf=inf: cm["var1-translated-softened"].add(vals(out), want, sc, inf))
+        push(["ad1soft"] + toks, lambda out, want=want, sc=sc, inf=inf: ad["var1-softened"].add(vals(out), want, sc, inf))
+        want = acc(vab.particles, n)
+        sc = [scale2(G, ps, da, db, dd, i) + 1e-300 for i in range(n)]
+        toks = [str(n), d2h(G), s2h] + gp_tokens(ps) + gp_tokens(da) + gp_tokens(db) + gp_tokens(dd)
+        push(["var2g"] + toks, lambda out, want=want, sc=sc, inf=inf: cm["var2-translated-softened"].add(vals(out), want, sc, inf))
+        push(["ad2soft"] + toks, lambda out, want=want, sc=sc, inf=inf: ad["var2-softened"].add(vals(out), want, sc, inf))
+        c.count(("acc-translated-softened", n), nontrivial=True, n=4)
     # ---------------------------------------------------------------- excluded points, measured: softening != 0
     for case in range(max(4, ncases // 10)):
         rng = c.rng.fork()
@@ -777,6 +815,14 @@ def regenerate_derivs(c):
     except Exception as ex:
         c.corr_break("translator cannot extract the vary() dispatch table from particle.py: %s" % str(ex)[:200])
     try:
+        vtext, vinfo = extract_c16.generate_varloops(REPO)
+        write_if_changed(os.path.join(LEAN, "RV", "Gen", "C16VarLoops.lean"), vtext)
+        c.cov["varloops_translated"] = vinfo
+        if vinfo["loops"] != 5 or vinfo["statements"] < 140:
+            c.corr_break("var-loop translation found %d loops / %d statements (5 / >=140 expected)" % (vinfo["loops"], vinfo["statements"]))
+    except Exception as ex:
+        c.corr_break("translator cannot translate the loops of reb_calculate_acceleration_var: %s" % str(ex)[:300])
+    try:
         rtext, rinfo = extract_c16.generate_rescale(REPO)
         write_if_changed(os.path.join(LEAN, "RV", "Gen", "C16Rescale.lean"), rtext)
         c.cov["rescale_ias15_table"] = rinfo
@@ -953,6 +999,111 @@ def tie_megno_bookkeeping(c, rebound, exe):
     c.cov.setdefault("comparisons", {})["megno_bookkeeping"] = {"values": nv, "not_bitwise": nb}
     if nb:
         c.corr_break("reb_tools_megno_update differs from the Lean Float model (%d of %d values; first: %s)" % (nb, nv, first["field"]), first)
+
+
+# ============================================================================ public entry points (extracted) are all exercised
+def tie_entry_points(c, rebound, exe):
+    """every DLLEXPORT function of rebound.h and every public Python method/property that reaches the variational machinery is
+    extracted from the sources and exercised here (smoke + oracle where one applies); the other phases use them heavily, this
+    phase makes 'each one at least once per run' an explicit obligation"""
+    clib = rebound.clibrebound
+    P = rebound.Particle
+    cd = ctypes.c_double
+    hdr = open(os.path.join(REPO, "src", "rebound.h")).read()
+    cfun = sorted(set(re.findall(r"DLLEXPORT[^;\n(]*?\b(reb_\w*(?:variation|megno|lyapunov|rescale_var|particle_derivative)\w*)\s*\(", hdr)))
+    pys = open(os.path.join(REPO, "rebound", "simulation.py")).read()
+    pyv = open(os.path.join(REPO, "rebound", "variation.py")).read()
+    pym = ["Simulation." + n for n in sorted(set(re.findall(r"^    def (\w*(?:variation|megno|lyapunov)\w*)\s*\(", pys, flags=re.M)))]
+    pym += ["Variation." + n for n in sorted(set(re.findall(r"^    def ((?!_)\w+)\s*\(", pyv, flags=re.M)))]
+    pym.append("Particle(variation=, variation2=, primary=)")
+    done = set()
+    bad = []
+
+    def chk(name, ok, detail=None):
+        done.add(name)
+        if not ok:
+            bad.append((name, detail))
+
+    def mk():
+        sim = rebound.Simulation()
+        sim.add(m=1.0)
+        sim.add(m=1e-3, a=1.0, e=0.1, inc=0.1, Omega=0.3, omega=0.4, f=0.5)
+        sim.add(m=5e-4, a=2.1, e=0.05, inc=0.2, Omega=1.3, omega=2.4, f=1.5)
+        return sim
+    # C: add_variation_1st_order / 2nd_order vs the Python method
+    sa, sb = mk(), mk()
+    ia = clib.reb_simulation_add_variation_1st_order(ctypes.byref(sa), ctypes.c_int(-1))
+    va = sb.add_variation()
+    chk("reb_simulation_add_variation_1st_order", ia == va.index == 3 and sa.N == sb.N == 6 and sa.N_var == 3)
+    chk("Simulation.add_variation", va.order == 1 and va.testparticle == -1)
+    ib = clib.reb_simulation_add_variation_1st_order(ctypes.byref(sa), ctypes.c_int(2))
+    i2 = clib.reb_simulation_add_variation_2nd_order(ctypes.byref(sa), ctypes.c_int(-1), ctypes.c_int(ia), ctypes.c_int(ia))
+    vb = sb.add_variation(testparticle=2)
+    v2 = sb.add_variation(order=2, first_order=va)
+    chk("reb_simulation_add_variation_2nd_order", ib == vb.index == 6 and i2 == v2.index == 7 and sa.N == sb.N == 10 and sa.N_var_config == 3
+        and sa.var_config[2].index_1st_order_a == ia and sb.var_config[2].index_1st_order_b == va.index)
+    # Variation.particles / vary / lrescale
+    va.vary(1, "a")
+    fn = clib.reb_particle_derivative_a; fn.restype = P
+    w = fn(cd(sb.G), sb.particles[0], sb.particles[1])
+    q = va.particles[1]
+    chk("Variation.vary", [q.x, q.y, q.z, q.vx, q.vy, q.vz] == [w.x, w.y, w.z, w.vx, w.vy, w.vz])
+    chk("Variation.particles", len(va.particles) == 3 and len(vb.particles) == 1 and ctypes.addressof(va.particles[1]) == ctypes.addressof(sb.particles[va.index + 1]))
+    com = sb.com()
+    va.vary(2, "e", primary=com)
+    fn = clib.reb_particle_derivative_e; fn.restype = P
+    w = fn(cd(sb.G), com, sb.particles[2])
+    q = va.particles[2]
+    pv = P(simulation=sb, particle=sb.particles[2], variation="e", variation2="f", primary=com)
+    fn2 = clib.reb_particle_derivative_e_f; fn2.restype = P
+    w2 = fn2(cd(sb.G), com, sb.particles[2])
+    chk("Particle(variation=, variation2=, primary=)", [q.x, q.vy] == [w.x, w.vy] and [pv.x, pv.y, pv.vz] == [w2.x, w2.y, w2.vz])
+    va.lrescale = 3.5
+    chk("Variation.lrescale", va.lrescale == 3.5 and sb.var_config[0]._lrescale == 3.5)
+    # rescale_var direct (oracle: the Float model ties it bitwise in tie-com-rescale); here: smoke on the C entry point
+    for comp in CART:
+        setattr(va.particles[0], comp, 2e100)
+    lr0 = va.lrescale
+    clib.reb_simulation_rescale_var(ctypes.byref(sb))
+    chk("reb_simulation_rescale_var", abs(va.lrescale - (lr0 + math.log(2e100))) < 1e-12 and va.particles[0].x == 1.0)
+    # MEGNO entry points
+    s1, s2, s3 = mk(), mk(), mk()
+    clib.reb_simulation_init_megno_seed(ctypes.byref(s1), ctypes.c_uint(7))
+    s2.init_megno(seed=7)
+    s3.init_megno()
+    n1 = sum(getattr(s1.particles[k], comp) ** 2 for k in range(3, 6) for comp in CART) / 3
+    same = all(d2h(getattr(s1.particles[k], comp)) == d2h(getattr(s2.particles[k], comp)) for k in range(3, 6) for comp in CART)
+    chk("reb_simulation_init_megno_seed", same and abs(n1 - 1) < 1e-12 and s1._calculate_megno == 3)
+    chk("Simulation.init_megno", same and s3.N_var == 3 and s3._calculate_megno == 3)
+    s4 = mk()
+    clib.reb_simulation_init_megno(ctypes.byref(s4))
+    chk("reb_simulation_init_megno", s4.N_var == 3 and s4._calculate_megno == 3 and s4._megno_n == 0)
+    clib.reb_simulation_megno.restype = cd
+    clib.reb_simulation_lyapunov.restype = cd
+    for s_ in (s1, s2):
+        s_.integrator = "whfast"; s_.dt = 0.05
+        s_.integrate(50.0)
+    chk("reb_simulation_megno", d2h(clib.reb_simulation_megno(ctypes.byref(s1))) == d2h(s2.megno()) and abs(s2.megno() - 2) < 0.5)
+    chk("Simulation.megno", s2.megno() == s2._megno_Yss / s2.t)
+    chk("reb_simulation_lyapunov", d2h(clib.reb_simulation_lyapunov(ctypes.byref(s1))) == d2h(s2.lyapunov()))
+    chk("Simulation.lyapunov", s2.lyapunov() == s2._megno_cov_Yt / s2._megno_var_t)
+    nder = sum(1 for f in cfun if f.startswith("reb_particle_derivative_"))
+    gd = c.cov.get("comparisons", {}).get("generated_derivatives", {})
+    for f in cfun:
+        if f.startswith("reb_particle_derivative_"):
+            # all of them are called and compared bitwise with their generated Lean translation in tie-generated-derivatives
+            if gd.get("functions") == nder and gd.get("not_bitwise", 1) == 0:
+                done.add(f)
+    missing = [f for f in cfun + pym if f not in done]
+    c.cov["entry_points"] = {"c_functions_extracted": len(cfun), "python_extracted": pym, "exercised": len(done), "missing": missing,
+                             "failed": [b[0] for b in bad]}
+    c.count(("entry-points",), nontrivial=True, n=len(done))
+    if len(cfun) < 7 + 65 or len(pym) < 8:
+        c.corr_break("entry-point extraction found too little: %d C functions, %d Python names" % (len(cfun), len(pym)))
+    if missing:
+        c.corr_break("public entry points of the variational machinery not exercised in this run: " + ", ".join(missing[:8]))
+    for name, _ in bad:
+        c.violation("entry-point:" + name, "public entry point %s does not do what its counterpart / documentation says" % name, {"entry_point": name})
 
 
 # ============================================================================ search: the 65 derivative constructors
@@ -1258,7 +1409,15 @@ def shadow_case(sy, integ, T, keys, com, tp, opts):
         (i, par), = keys
         v = sim.add_variation(testparticle=tparg)
         init_first(v, slot(i), i, par)
-        var = read_var(finish(sim), v.index)
+        ret_ = finish(sim)
+        var = read_var(ret_, v.index)
+        if "var_logscale" in opts:          # events that rescale the stored variation (rescale_var, user factor): undo in log space
+            lf = opts["var_logscale"](ret_, v.index)
+            try:
+                f_ = math.exp(lf / 2)
+                var = [x * f_ * f_ for x in var]
+            except OverflowError:
+                var = [float("inf")] * len(var)
         h = step_for(par, 1) * shrink
 
         def D(f):
@@ -2539,6 +2698,306 @@ def search_rescale_then_reject(c, rebound):
     c.cov["rescale_then_reject"] = {"runs": runs, "conjunctions": nconj, "worst_rel": float("%.3g" % worst), "threshold": 1e-9}
 
 
+# ============================================================================ search: pairwise covering array of explicit factors
+PW_FACTORS = {
+    "integ":   ["ias15", "bs", "whfast", "leapfrog"],
+    "order":   [1, 2],
+    "role":    ["all-active", "nactive-type0-massless", "nactive-type0-massive", "nactive-type1-massive", "testparticle-var"],
+    "param":   ["cart", "mass", "orb", "pal"],
+    "sign":    [1, -1],
+    "pattern": ["single", "split", "reversal"],
+    "option":  ["default", "softening", "G-and-mass", "noop-callbacks", "forces-with-counterpart"],
+    "evA":     ["none", "rescale", "dt-raise", "switch", "restore", "copy", "frame-op", "synchronize"],   # event in step s
+    "evB":     ["none", "rescale", "dt-raise", "switch", "restore", "copy", "frame-op", "synchronize"],   # event in step s+1
+}
+PW_ORDER = ["integ", "order", "role", "param", "sign", "pattern", "option", "evA", "evB"]
+
+
+def pw_valid(a):
+    """constraints = combinations the code rejects (or a recorded finding); listed explicitly"""
+    if a["integ"] == "whfast" and a["order"] == 2:
+        return False        # "WHFast/MEGNO only supports first order variational equations."
+    if a["integ"] == "whfast" and a["role"] == "testparticle-var":
+        return False        # "Test particle variations not supported with WHFast."
+    if a["integ"] == "whfast" and a["param"] == "mass":
+        return False        # F16 (known finding): WHFast tangent map has no mass terms
+    if a["role"] == "nactive-type1-massive" and a["order"] == 2:
+        return False        # "testparticletype=1 not implemented for second order variational equations."
+    if a["role"] == "testparticle-var" and a["param"] == "mass":
+        return False        # a test particle has no mass to vary
+    if a["order"] == 2 and "rescale" in (a["evA"], a["evB"]):
+        return False        # second-order sets are never rescaled (warning + return)
+    return True
+
+
+def pw_array(seed=20260930):
+    """greedy all-pairs covering array: repeat 'pick the candidate covering most uncovered pairs' from 300 random valid candidates"""
+    rng = SplitMix(seed)
+    names = PW_ORDER
+    # feasible pairs: enumerate the constrained sub-space once
+    feasible = set()
+    con = ["integ", "order", "role", "param", "evA", "evB"]
+    free = [n for n in names if n not in con]
+
+    def rec(i, a):
+        if i == len(con):
+            if pw_valid(dict(a, sign=1, pattern="single", option="default")):
+                items = list(a.items())
+                for x in range(len(items)):
+                    for y in range(x + 1, len(items)):
+                        feasible.add((items[x][0], items[x][1], items[y][0], items[y][1]))
+            return
+        for v in PW_FACTORS[con[i]]:
+            a[con[i]] = v
+            rec(i + 1, a)
+        del a[con[i]]
+    rec(0, {})
+    allpairs, excluded = set(), 0
+    for x in range(len(names)):
+        for y in range(x + 1, len(names)):
+            for va in PW_FACTORS[names[x]]:
+                for vb in PW_FACTORS[names[y]]:
+                    pr = (names[x], va, names[y], vb)
+                    if names[x] in free or names[y] in free or pr in feasible:
+                        allpairs.add(pr)
+                    else:
+                        excluded += 1
+
+    def pairs_of(a):
+        return {(names[x], a[names[x]], names[y], a[names[y]]) for x in range(len(names)) for y in range(x + 1, len(names))}
+    uncovered = set(allpairs)
+    cases = []
+    while uncovered and len(cases) < 400:
+        best, bestn = None, -1
+        seedpair = sorted(uncovered, key=str)[rng.next() % len(uncovered)]
+        for _ in range(300):
+            a = {n: rng.choice(PW_FACTORS[n]) for n in names}
+            a[seedpair[0]] = seedpair[1]; a[seedpair[2]] = seedpair[3]
+            if not pw_valid(a):
+                continue
+            n_ = len(pairs_of(a) & uncovered)
+            if n_ > bestn:
+                best, bestn = a, n_
+        if best is None:
+            uncovered.discard(seedpair)
+            continue
+        cases.append(best)
+        uncovered -= pairs_of(best)
+    return cases, allpairs, excluded, pairs_of
+
+
+def pw_run_case(c, rebound, a, rng, tmpdir):
+    """one case of the covering array -> (err, unc) with the Romberg finite-difference oracle on equally treated shadows"""
+    integ, order, role, param, sgn = a["integ"], a["order"], a["role"], a["param"], a["sign"]
+    G, m0 = (2.7, 1.8) if a["option"] == "G-and-mass" else (1.0, 1.0)
+    base = gen_system(rebound, rng)
+    bodies = list(base.bodies)
+    if G != 1.0:        # keep the periods: scale the semi-major axes so that n stays ~1
+        sc_ = (G * m0) ** (1 / 3.0)
+        bodies = [(m, k, [el[0] * sc_] + list(el[1:])) for m, k, el in bodies]
+    nactive = None
+    tptype = 0
+    if role != "all-active":
+        mt = {"nactive-type0-massless": 0.0, "nactive-type0-massive": 8e-4, "nactive-type1-massive": 8e-4, "testparticle-var": 0.0}[role]
+        a3 = (3.3 + rng.uniform(0, 0.6)) * (bodies[1][2][0] / base.bodies[1][2][0])
+        bodies.append((mt, "orb", [a3, rng.uniform(0.02, 0.15), rng.uniform(0.02, 0.4), rng.uniform(0, 6.28), rng.uniform(0, 6.28), rng.uniform(0, 6.28)]))
+        nactive = 3
+        tptype = 1 if role == "nactive-type1-massive" else 0
+    sy = System(rebound, G, m0, bodies, nactive)
+    tp = 3 if role == "testparticle-var" else None
+    i = 3 if (role == "testparticle-var" or (role != "all-active" and param != "mass" and rng.chance(0.5))) else rng.choice([1, 2])
+    j = i if (tp is not None or rng.chance(0.6)) else (1 if i != 1 else 2)
+    if order == 1:
+        keys = [(i, {"cart": "x", "mass": "m_cart", "orb": "a", "pal": "lambda"}[param])]
+    else:
+        keys = {"cart": [(i, "x"), (j, "vy")], "mass": [(i if tp is None else 1, "m_cart"), (j, "x")], "orb": [(i, "a"), (i, "e")], "pal": [(i, "lambda"), (i, "h")]}[param]
+    T = 6.0 * sgn
+    dtf = 0.01 * sgn
+    kf = 0.05
+
+    def setup(sim):
+        sim.testparticle_type = tptype
+        if a["option"] == "softening":
+            sim.softening = 0.12
+        if a["option"] == "noop-callbacks":
+            def f1(simp):
+                pass
+
+            def f2(simp):
+                pass
+            sim.post_timestep_modifications = f1
+            sim.heartbeat = f2
+            sim._keep_cb = (f1, f2)
+        if a["option"] == "forces-with-counterpart":
+            def af(simp):
+                s_ = simp.contents
+                ps = s_.particles
+                for i_ in range(s_.N):          # real AND variational particles: the force is linear
+                    p_ = ps[i_]
+                    p_.ax -= kf * p_.x; p_.ay -= kf * p_.y; p_.az -= kf * p_.z
+            sim.additional_forces = af
+            sim._keep_af = af
+    nmul = [0]
+    BIG = 3e100
+    allowed = [x for x in ("ias15", "bs", "leapfrog", "whfast") if x != "whfast" or (order == 1 and tp is None and param != "mass")]
+    state = {"integ": integ}
+    rot = rebound.Rotation(angle=0.9, axis=[0.2, 0.7, -0.4])
+
+    def event(ev, sim, k):
+        if ev == "rescale":
+            if sim.N_var_config > 0:            # the user makes the stored variation huge: rescale_var fires at the end of the next step
+                vc = sim.var_config[0]
+                nv = 1 if vc.testparticle >= 0 else sim.N - sim.N_var
+                for i_ in range(nv):
+                    p_ = sim.particles[vc.index + i_]
+                    for comp in CART + ["m"]:       # the whole variational state (incl. a variational mass) is linear: scale all of it
+                        setattr(p_, comp, getattr(p_, comp) * BIG)
+                nmul[0] += 1
+        elif ev == "dt-raise":
+            sim.dt = 3.0 * sgn if state["integ"] in ("ias15", "bs") else sim.dt * 2    # adaptive: far too long -> rejected attempt
+        elif ev == "switch":
+            nxt = allowed[(allowed.index(state["integ"]) + 1 + k) % len(allowed)]
+            if nxt == state["integ"]:
+                nxt = allowed[(allowed.index(nxt) + 1) % len(allowed)]
+            sim.integrator = nxt
+            state["integ"] = nxt
+            if nxt in ("whfast", "leapfrog"):
+                sim.dt = dtf
+            if nxt == "bs":
+                sim.ri_bs.eps_rel = 1e-12; sim.ri_bs.eps_abs = 1e-12
+        elif ev == "restore":
+            fn = os.path.join(tmpdir, "c16pw_%d_%d.bin" % (os.getpid(), id(sim) % 1000003))
+            sim.save_to_file(fn, delete_file=True)
+            s2 = rebound.Simulation(fn)
+            os.remove(fn)
+            setup(s2)                           # callbacks are not persisted: the user installs them again
+            return s2
+        elif ev == "copy":
+            s2 = sim.copy()
+            setup(s2)
+            return s2
+        elif ev == "frame-op":
+            if k == 0:
+                sim.move_to_com()
+            else:
+                sim.rotate(rot)
+        elif ev == "synchronize":
+            sim.synchronize()
+        return sim
+
+    def history(sim, T_):
+        state["integ"] = integ
+        nmul[0] = 0
+        h_ = 0.5 * T_
+        if a["pattern"] == "single":
+            sim.integrate(h_, exact_finish_time=1)
+        elif a["pattern"] == "split":
+            sim.integrate(0.2 * T_, exact_finish_time=1); sim.integrate(0.35 * T_, exact_finish_time=1); sim.integrate(h_, exact_finish_time=1)
+        else:
+            sim.integrate(0.6 * T_, exact_finish_time=1); sim.integrate(0.3 * T_, exact_finish_time=1); sim.integrate(h_, exact_finish_time=1)
+        sim = event(a["evA"], sim, 0)
+        sim.step()                              # step s
+        sim = event(a["evB"], sim, 1)
+        sim.step()                              # step s+1
+        tgt = T_ if abs(sim.t) < abs(T_) else sim.t + 0.5 * T_
+        sim.integrate(tgt, exact_finish_time=1)
+        return sim
+
+    def logscale(ret, vindex):
+        lr = 0.0
+        for k_ in range(ret.N_var_config):
+            if ret.var_config[k_].index == vindex:
+                lr = ret.var_config[k_]._lrescale
+        return lr - nmul[0] * math.log(BIG)
+    opts = {"dt": dtf, "setup": setup, "history": history, "var_logscale": logscale}
+    sy2 = sy
+    for (ii, par) in keys:
+        if par in PAL[2:]:
+            sy2 = sy2.with_kind(ii, "pal")
+    # the final time must be identical for base run and shadows: adaptive dt-raise can overshoot T/2+..., integrate() handles it
+    err, unc, var, fd = shadow_case(sy2, integ, T, keys, role == "all-active" and a["evA"] != "frame-op" and a["evB"] != "frame-op", tp, opts)
+    return err, unc, dict(keys=keys, G=G, m0=m0, bodies=sy2.bodies, N_active=nactive, testparticle_type=tptype, variational=var[:12], finite_difference=fd[:12])
+
+
+def search_pairwise(c, rebound):
+    THR = 1e-3
+    tmpdir = os.environ.get("VERIF_TMP", "/tmp")
+    cases, allpairs, excluded, pairs_of = pw_array()
+    if c.thorough:
+        todo = list(range(len(cases)))
+    else:                                        # seed-rotated slice: every case (hence every pair) is run within three seeds
+        todo = [k for k in range(len(cases)) if k % 3 == c.seed % 3]
+    covered = set()
+    worst, fails, ninc, nerr = 0.0, [], 0, []
+    for k in todo:
+        a = cases[k]
+        rng = SplitMix(977 * (k + 1) + 31 * c.seed)
+        try:
+            err, unc, rep = pw_run_case(c, rebound, a, rng, tmpdir)
+        except Exception as ex:
+            if a["param"] == "mass" and "rescale" in (a["evA"], a["evB"]):
+                # F26: the un-rescaled variational mass drives the set to inf/nan, an adaptive integrator then refuses to go on
+                err, unc, rep = float("inf"), 0.0, dict(exception=repr(ex)[:200])
+            else:
+                nerr.append(dict(case=a, error=repr(ex)[:200]))
+                continue
+        c.count(("pairwise", k), nontrivial=True)
+        if unc > THR / 4:
+            ninc += 1
+            continue
+        covered |= pairs_of(a)
+        if err == err:
+            worst = max(worst, err)
+        if not err <= THR + 4 * unc:
+            fails.append(dict(rep, factors=a, rel_err=err, oracle_uncertainty=unc))
+    # 3-way for the factors closest to the mechanism: integrator x event in step s x event in step s+1 (thorough)
+    n3 = n3cov = 0
+    if c.thorough:
+        for integ in PW_FACTORS["integ"]:
+            for ea in PW_FACTORS["evA"]:
+                for eb in PW_FACTORS["evB"]:
+                    a = dict(integ=integ, order=1, role="all-active", param=["cart", "orb", "pal"][(n3) % 3], sign=1 if n3 % 2 == 0 else -1,
+                             pattern="single", option="default", evA=ea, evB=eb)
+                    if not pw_valid(a):
+                        continue
+                    n3 += 1
+                    try:
+                        err, unc, rep = pw_run_case(c, rebound, a, SplitMix(5000 + n3), tmpdir)
+                    except Exception as ex:
+                        nerr.append(dict(case=a, error=repr(ex)[:200]))
+                        continue
+                    c.count(("threeway", integ, ea, eb), nontrivial=True)
+                    if unc > THR / 4:
+                        continue
+                    n3cov += 1
+                    if not err <= THR + 4 * unc:
+                        fails.append(dict(rep, factors=a, rel_err=err, oracle_uncertainty=unc))
+    total = len(allpairs)
+    c.cov["pairs"] = {"covered": len(covered & allpairs), "total": total, "excluded": excluded, "array_size": len(cases), "cases_run": len(todo),
+                      "inconclusive": ninc, "errors": nerr[:5], "worst_rel": float("%.3g" % worst), "threshold": THR,
+                      "factors": {k_: len(v) for k_, v in PW_FACTORS.items()},
+                      "threeway_integ_evA_evB": {"run": n3, "conclusive": n3cov},
+                      "missing": [list(p_) for p_ in sorted(allpairs - covered, key=str)[:15]] if c.thorough else "quick tier runs a third of the array (rotated by VERIF_SEED)"}
+    if nerr:
+        c.corr_break("pairwise phase: %d cases raised an exception (first: %s)" % (len(nerr), nerr[0]["error"]), nerr[0])
+    if c.thorough and len(covered & allpairs) < total:
+        c.corr_break("pairwise coverage incomplete: %d of %d applicable pairs" % (len(covered & allpairs), total))
+    if c.thorough and n3cov < n3:
+        c.corr_break("3-way coverage integ x evA x evB incomplete: %d of %d" % (n3cov, n3))
+    seen = set()
+    for f in sorted(fails, key=lambda r_: -(r_["rel_err"] if r_["rel_err"] == r_["rel_err"] else 1e300)):
+        fa = f["factors"]
+        if fa["param"] == "mass" and "rescale" in (fa["evA"], fa["evB"]):
+            key = "F26:rescale_var-ignores-variational-mass"
+        else:
+            key = "pairwise:%s:o%d:%s>%s" % (fa["integ"], fa["order"], fa["evA"], fa["evB"])
+        if key in seen:
+            continue
+        seen.add(key)
+        c.violation(key, "variation differs from the finite difference of equally treated shadows by %.3g for the factor combination %s" %
+                    (f["rel_err"], json.dumps(fa, sort_keys=True)), f)
+
+
 def run(c):
     if "--replay" in sys.argv:
         # runs are reproducible from (seed, tier): a replay re-runs the check exactly as it ran when the file was written
@@ -2587,11 +3046,13 @@ def run(c):
     run_phase(c, "tie-corrector-schedule", lambda: tie_corrector_schedule(c, rebound, exe), 60 * big)
     run_phase(c, "tie-generated-derivatives", lambda: tie_generated_derivatives(c, rebound, exe, fams), 60 * big)
     run_phase(c, "tie-megno-bookkeeping", lambda: tie_megno_bookkeeping(c, rebound, exe), 60 * big)
+    run_phase(c, "tie-entry-points", lambda: tie_entry_points(c, rebound, exe), 60 * big)
     run_phase(c, "tie-dispatch", lambda: tie_dispatch(c, rebound, exe), 60 * big)
     run_phase(c, "derivatives", lambda: search_derivatives(c, rebound), 120 * big)
     run_phase(c, "shadow", lambda: search_shadow(c, rebound), 150 * (10 if c.thorough else 1))
     run_phase(c, "rescale-megno", lambda: search_rescale_megno(c, rebound), 60 * big)
     run_phase(c, "dimensions", lambda: search_dimensions(c, rebound), 150 * (8 if c.thorough else 1))
+    run_phase(c, "pairwise", lambda: search_pairwise(c, rebound), 150 * (8 if c.thorough else 1))
     run_phase(c, "rescale-then-reject", lambda: search_rescale_then_reject(c, rebound), 60 * big)
     run_phase(c, "rejected-steps", lambda: search_rejected_steps(c, rebound), 90 * big)
     run_phase(c, "whfast-tangent", lambda: search_whfast_tangent(c, rebound), 90 * big)
